@@ -3,10 +3,12 @@ package c15
 
 import (
 	crand "crypto/rand"
+	"crypto/sha256"
 	"encoding/hex"
 	"fmt"
 	"io"
 	"os"
+	"path/filepath"
 	"sort"
 	"strings"
 	"time"
@@ -15,6 +17,7 @@ import (
 	epb "github.com/google/gce-tcb-verifier/proto/endorsement"
 	"github.com/google/gce-tcb-verifier/sev"
 	"github.com/google/gce-tcb-verifier/tdx"
+	"github.com/google/gce-tcb-verifier/testing/nonprod/localnonvcs"
 	"google.golang.org/protobuf/proto"
 
 	"verifharness/authority"
@@ -283,6 +286,34 @@ func run(c *core.Ctx) {
 				}
 				c.Cell("dry-retry|snapshot=%v|err=%v|side-effects=%v", snapshot, err2 != nil, len(side2) > 0)
 			}
+			// the same request against the shipped file back end (testing/nonprod/localnonvcs, what the command line
+			// composes): the directory tree under its root is compared before and after. The output directory does not
+			// exist yet in half of the cases (a first release into a new directory), otherwise it holds an older candidate.
+			if (dry || mo) && !noTech {
+				root, _ := os.MkdirTemp("", "verif-c15-root-")
+				fresh := (combo/2+im)%2 == 0
+				if !fresh {
+					os.MkdirAll(filepath.Join(root, "out"), 0o755)
+					os.WriteFile(filepath.Join(root, "out", base.CandidateName+".binarypb"), []byte("old"), 0o644)
+					os.WriteFile(filepath.Join(root, "out", "manifest.textproto"), []byte("# old\n"), 0o644)
+				}
+				treeBefore := tree(root)
+				ec3 := cloneReq(ec)
+				ec3.VCS = &localnonvcs.T{Root: root}
+				var err3 error
+				c.Guard(idx, "endorse.VirtualFirmware", gname+" file-back-end", core.Budget{}, func() {
+					captureStdout(func() { err3 = a.Endorse(&doubles.FCtl{}, authority.Opts{Overwrite: overwrite}, ec3) })
+				})
+				treeAfter := tree(root)
+				if d := treeDiff(treeBefore, treeAfter); d != "" {
+					c.Violate(core.Violation{Kind: "oracle", Entry: "endorse.VirtualFirmware", Site: "file-tree-changed-in-dry-run-or-measurement-only", Gen: gname + " file-back-end", Case: idx,
+						Detail: fmt.Sprintf("output root (out directory %s before the run; run returned %v): %s", map[bool]string{true: "absent", false: "present"}[fresh], err3, d)})
+					cls = "FILE-TREE-CHANGED"
+				}
+				c.Cell("file-back-end|dry=%v|mo=%v|snapshot=%v|out-dir-existed=%v|err=%v", dry, mo, snapshot, !fresh, err3 != nil)
+				c.Count("runs-against-the-file-back-end-with-tree-compared", 1)
+				os.RemoveAll(root)
+			}
 			c.Cell("dry=%v|mo=%v|snp=%v|tdx=%v|snapshot=%v|cand=%v|overwrite=%v|explicit=%v|%s", dry, mo, snp, tdxOn, snapshot, cand, overwrite, explicit, cls)
 			if combo%61 == 0 {
 				c.Sample(map[string]any{"case": gname, "error": fmt.Sprint(err), "calls_logged": len(f.Log), "stdout_lines": len(strings.Split(strings.TrimSpace(out), "\n"))})
@@ -294,4 +325,41 @@ func run(c *core.Ctx) {
 	c.Count("measurement-only-runs-compared-with-real-run", measOK)
 	c.Floor("dry-runs-completed", dryOK > 0)
 	c.Floor("measurement-only-compared", measOK > 0)
+}
+
+// tree lists every entry under root with its kind, mode and contents.
+func tree(root string) map[string]string {
+	out := map[string]string{}
+	filepath.Walk(root, func(p string, info os.FileInfo, err error) error {
+		if err != nil {
+			return nil
+		}
+		rel, _ := filepath.Rel(root, p)
+		if info.IsDir() {
+			out[rel] = "dir " + info.Mode().String()
+			return nil
+		}
+		b, _ := os.ReadFile(p)
+		out[rel] = fmt.Sprintf("file %s %d bytes %x", info.Mode(), len(b), sha256.Sum256(b))
+		return nil
+	})
+	return out
+}
+
+func treeDiff(a, b map[string]string) string {
+	var d []string
+	for k, v := range b {
+		if av, ok := a[k]; !ok {
+			d = append(d, "created "+k+" ("+strings.SplitN(v, " ", 2)[0]+")")
+		} else if av != v {
+			d = append(d, "changed "+k)
+		}
+	}
+	for k := range a {
+		if _, ok := b[k]; !ok {
+			d = append(d, "removed "+k)
+		}
+	}
+	sort.Strings(d)
+	return strings.Join(d, "; ")
 }
